@@ -59,6 +59,10 @@ class Run:
     def relevant(self, unit, fname):
         if config.PROPS.get(self.prop, {}).get("all_fns"):
             return True
+        # units the property depends on wholesale (e.g. the POSIX rule evaluator with the itime calendar core it imports):
+        # every function of such a unit is an obligation of this property, whatever its own tags
+        if unit.name in config.PROPS.get(self.prop, {}).get("whole_units", ()):
+            return True
         spec = unit.fns.get(fname)
         if spec is None or not spec.props:
             return True
